@@ -2806,7 +2806,8 @@ impl<'store> QueryIter<'store> {
                 Box::new(iter.filter_text_byref(text, true, " "))
             }
             &Constraint::Text(text, TextMode::CaseInsensitive) => {
-                Box::new(iter.filter_text_byref(text, false, " "))
+                //filter_text_byref() wants a lower-cased text, filter_text() lower-cases it
+                Box::new(iter.filter_text(text.to_string(), false, " "))
             }
             Constraint::Regex(regex) => Box::new(iter.filter_text_regex(regex.clone(), " ")),
             &Constraint::TextVariable(var) => {
@@ -3465,7 +3466,8 @@ impl<'store> QueryIter<'store> {
                 Box::new(iter.filter_text_byref(text, true))
             }
             &Constraint::Text(text, TextMode::CaseInsensitive) => {
-                Box::new(iter.filter_text_byref(text, false))
+                //filter_text_byref() wants a lower-cased text, filter_text() lower-cases it
+                Box::new(iter.filter_text(text.to_string(), false))
             }
             Constraint::Regex(regex) => Box::new(iter.filter_text_regex(regex.clone())),
             &Constraint::TextRelation { var, operator } => {
